@@ -25,8 +25,9 @@ PARTIAL = ["refinement theorem `abs (step s op) = Spec.step (abs s) op` (model =
            "proved so far: the representation invariant for all histories and the agreement of the access paths",
            "rectangularity invariant (cached length = every row's length) is checked by the oracle on the implementation's "
            "observations after every step, not yet a Lean theorem",
-           "ShuffleSequences / Sample are modelled with their permutation supplied (Op.permute / Op.sample); the Go math/rand "
-           "replica that resolves it belongs to C10"]
+           "ShuffleSequences / Sample are modelled with their permutation supplied (Op.permute / Op.sample); in the correspondence "
+           "the oracle resolves it with the Go math/rand replica of C10 (that the replica's shuffle is a permutation for every seed "
+           "is C10.shuffle_every_seed)"]
 
 NAMES = ["a", "b", "c", "d", "Seq0000", "Seq0001", "a_0001", "x y", " lead", "n(1)", "p:q", "k,l", "t;u", "e.f", "long_name_here", "A"]
 NT = "ACGTacgtNn-RYK*?."
@@ -120,8 +121,14 @@ def gen_hist(rng, maxops):
             changing += 1
         elif k < 0.85:
             ops.append("clone")
-        elif k < 0.88:
+        elif k < 0.865:
             ops.append(rng.choice(["toupper", "tolower", "autoalpha"]))
+            changing += 1
+        elif k < 0.875:
+            ops.append("shuffle:%d" % rng.randint(0, 10 ** 6))
+            changing += 1
+        elif k < 0.88:
+            ops.append("sample:%d:%d" % (rng.choice([0, 1, 2, 3, 6]), rng.randint(0, 10 ** 6)))
             changing += 1
         elif k < 0.91:
             ops.append("replace:%s:%s" % (rng.choice(["A", "AC", "-", "N"]), rng.choice(["T", "", "GG", "-"])))
